@@ -77,6 +77,22 @@ def topy(c, k):
     raise ValueError("cannot build " + t)
 
 
+def deep_repr(v, depth=0):
+    """Hidden-representation fingerprint of a value: dtype / dimensionality tree (not its contents)."""
+    import numpy as np
+    if isinstance(v, np.ndarray):
+        t = str(v.dtype) + (str(tuple(v.shape)) if v.ndim > 1 else "")
+        if v.dtype == object and depth < 4 and v.ndim == 1:
+            inner = sorted({deep_repr(x, depth + 1) for x in v})
+            t += "[" + ",".join(inner) + "]"
+        return t
+    if isinstance(v, list):
+        return "pylist"
+    if isinstance(v, np.generic):
+        return str(v.dtype)
+    return type(v).__name__
+
+
 def user_vars(k):
     """Canonical snapshot of the user-visible (non system) variables, with Python type tags."""
     from klongpy.utils import ReadonlyDict
@@ -90,8 +106,5 @@ def user_vars(k):
             if s.startswith("."):
                 continue
             if s not in snap:
-                tag = type(v).__name__
-                if hasattr(v, "dtype"):
-                    tag += ":" + str(v.dtype) + (str(tuple(v.shape)) if getattr(v, "ndim", 0) > 1 else "")
-                snap[s] = [canon(v), tag]
+                snap[s] = [canon(v), type(v).__name__ + ":" + deep_repr(v)]
     return snap
